@@ -84,12 +84,14 @@ package stackage
 //@ ensures[C01,C03,C13:ga.stored] forall j :: 0 <= j && j < n && stored(old(Mem_Val), x, nn, cp, len0, j) ==> slot(r, plen(old(Mem_Val), x, nn, cp, len0, j)) == old(x[j])
 //@ ensures[C01,C03:ga.kept] forall k :: 0 <= k && k < len0 ==> slot(r, k) == old(slot(r, k))
 //@ ensures[C01:ga.plain] cp == 0 && !nn ==> len(hdr(r)) == len0 + n && (forall j :: 0 <= j && j < n ==> slot(r, len0 + j) == old(x[j]))
+//@ ensures[C01:ga.plain.abs] cp == 0 && !nn ==> (forall q :: len0 <= q && q < len0 + n ==> cell(hdr(r), q) == old(Mem_Val[arr(x)][off(x) + q - len0]))
 //@ ensures[C03:ga.wf] wf(r) && cfgOf(r) == old(cfgOf(r))
 //@ ensures[:ga.own] arr(hdr(r)) == old(arr(hdr(r))) || fresh(arr(hdr(r)))
 //@ modifies Cell_stack[r], Mem_Val[old(arr(hdr(r)))], Mem_Val[fresh]
 //@ loop 1 invariant 0 <= i && i <= n && wf(r) && cfgOf(r) == old(cfgOf(r))
 //@ loop 1 invariant len(hdr(r)) == plen(old(Mem_Val), x, nn, cp, len0, i) && len(hdr(r)) >= len0
 //@ loop 1 invariant cp == 0 && !nn ==> len(hdr(r)) == len0 + i
+//@ loop 1 invariant cp == 0 && !nn ==> (forall q :: len0 <= q && q < len0 + i ==> cell(hdr(r), q) == old(Mem_Val[arr(x)][off(x) + q - len0]))
 //@ loop 1 invariant arr(hdr(r)) == old(arr(hdr(r))) || fresh(arr(hdr(r)))
 //@ loop 1 invariant memSameExcept(Mem_Val, old(Mem_Val), old(arr(hdr(r))), old(alloc))
 //@ loop 1 invariant hdrsSameExcept(Cell_stack, old(Cell_stack), r, old(alloc))
@@ -248,6 +250,7 @@ package stackage
 //@ ensures[C01,C03,C13:push.stored] pp == nil ==> (forall j :: 0 <= j && j < n && stored(old(Mem_Val), x, nn, cp, len0, j) ==> slot(r, plen(old(Mem_Val), x, nn, cp, len0, j)) == old(x[j]))
 //@ ensures[C01,C03:push.kept] forall k :: 0 <= k && k < len0 ==> slot(r, k) == old(slot(r, k))
 //@ ensures[C01:push.plain] pp == nil ==> (cp == 0 && !nn ==> len(hdr(r)) == len0 + n && (forall j :: 0 <= j && j < n ==> slot(r, len0 + j) == old(x[j])))
+//@ ensures[C01:push.plain.abs] pp == nil && cp == 0 && !nn ==> (forall q :: len0 <= q && q < len0 + n ==> cell(hdr(r), q) == old(Mem_Val[arr(x)][off(x) + q - len0]))
 //@ ensures[C03:push.wf] wf(r) && cfgOf(r) == old(cfgOf(r))
 //@ ensures[:push.own] arr(hdr(r)) == old(arr(hdr(r))) || fresh(arr(hdr(r)))
 //@ ensures[:push.calls] G_calls_len >= c0 && (pp == nil ==> G_calls_len == c0)
@@ -272,6 +275,7 @@ package stackage
 //@ let c0 := G_calls_len
 //@ let M0 := Mem_Val
 //@ ensures[C01:Push.plain] pp == nil ==> (go && cp == 0 && !nn ==> len(hdr(r)) == len0 + n && (forall j :: 0 <= j && j < n ==> slot(r, len0 + j) == old(y[j])))
+//@ ensures[C01:Push.plain.abs] pp == nil && go && cp == 0 && !nn ==> (forall q :: len0 <= q && q < len0 + n ==> cell(hdr(r), q) == old(Mem_Val[arr(y)][off(y) + q - len0]))
 //@ ensures[C03,C13:Push.len] pp == nil ==> (go ==> len(hdr(r)) == plen(old(Mem_Val), y, nn, cp, len0, n))
 //@ ensures[C03,C13:Push.stored] pp == nil ==> (go ==> forall j :: 0 <= j && j < n && stored(old(Mem_Val), y, nn, cp, len0, j) ==> slot(r, plen(old(Mem_Val), y, nn, cp, len0, j)) == old(y[j]))
 //@ ensures[C01,C03:Push.kept] r != nil ==> forall k :: 0 <= k && k < len0 ==> slot(r, k) == old(slot(r, k))
@@ -1773,8 +1777,12 @@ package stackage
 //@ let known := lab == "LIST" || lab == "AND" || lab == "OR" || lab == "NOT" || lab == "BASIC"
 //@ ensures[C04:md.kind] len(in) >= 2 && is_v_str(in[0]) && known ==> x != nil && ulen(x) == len(in) - 1 && F_nodeConfig_typ[cfgOf(x)] == kindOfLabel(lab)
 //@ ensures[C04:md.leaf] len(in) >= 2 && is_v_str(in[0]) && known ==> (forall j :: 0 <= j && j < len(in) - 1 && !is_v_anys(old(in[1 + j])) ==> slot(x, 1 + j) == old(in[1 + j]))
+//@ ensures[C04:md.nested] len(in) >= 2 && is_v_str(in[0]) && known ==> (forall q :: 1 <= q && q < len(in) && labelledStack(old(Mem_Val[arr(in)][off(in) + q])) ==> isStackLike(cell(hdr(x), q)) && stackOf(cell(hdr(x), q)) != nil)
 //@ modifies fresh, G_calls_len, G_calls_fn, G_calls_arg
 //@ loop 1 invariant x != nil && wf(x) && fresh(x) && fresh(arr(hdr(x))) && 0 <= i
+//@ loop 1 invariant len(in0) >= 2 && is_v_str(old(in0[0])) && known ==> len(hdr(x)) == len(in0) && (forall q :: 1 <= q && q < len(hdr(x)) ==> pre(cell(hdr(x), q)) == old(Mem_Val[arr(in0)][off(in0) + q]))
+//@ loop 1 invariant forall q :: i + 1 <= q && q < len(hdr(x)) ==> cell(hdr(x), q) == pre(cell(hdr(x), q))
+//@ loop 1 invariant forall q :: 1 <= q && q <= i && q < len(hdr(x)) && labelledStack(pre(cell(hdr(x), q))) ==> isStackLike(cell(hdr(x), q)) && stackOf(cell(hdr(x), q)) != nil
 //@ loop 1 invariant hdr(x) == pre(hdr(x)) && (forall q :: 1 <= q && q < len(hdr(x)) && !is_v_anys(pre(cell(hdr(x), q))) ==> cell(hdr(x), q) == pre(cell(hdr(x), q)))
 //@ loop 1 invariant len(hdr(x)) == pre(len(hdr(x))) && cfgOf(x) == pre(cfgOf(x))
 //@ loop 1 invariant forall a :: 0 <= a && a < old(alloc) ==> Mem_Val[a] == old(Mem_Val[a])
